@@ -62,6 +62,7 @@ class BuildResult:
     self.axioms = {}           # theorem -> list of axioms
     self.audit_problems = []   # strings
     self.wall_s = 0.0
+    self.model_ok = True
 
   @property
   def proof_ok(self):
@@ -104,8 +105,13 @@ def lean_build(targets, audit_file=None, expected_theorems=()):
       if isinstance(v, Exception):
         res.ok = False
         res.audit_problems.append(f'translator {k} cannot regenerate its fragment: {v}')
-    rc, out = _run(['lake', 'build'] + list(targets), cwd=LEAN)
+    # the executable model first (it can still serve the correspondence when a proof no longer checks)
+    model_targets = [t for t in targets if t.startswith(('MM.Model.', 'MM.Driver.'))] + ['MM']
+    rc, out = _run(['lake', 'build'] + model_targets, cwd=LEAN)
+    res.model_ok = rc == 0
     res.log = out
+    rc, out = _run(['lake', 'build'] + list(targets), cwd=LEAN)
+    res.log += out
     if rc != 0:
       res.ok = False
       res.failed_targets = re.findall(r'^- (\S+)$', out, flags=re.M) or list(targets)
